@@ -344,10 +344,16 @@ Definition flush_hdr (hd : handle) (size : N) : hdr :=
      h_uid := h_uid i; h_gid := h_gid i; h_uname := h_uname i; h_gname := h_gname i;
      h_mtime := h_mtime i; h_atime := h_atime i; h_ctime := h_ctime i; h_pax := [] |}.
 
+(* the content changes at the flush: the modification time is the clock's *)
+Definition stamp_mtime (h : hdr) (now : Z) : hdr :=
+  {| h_tf := h_tf h; h_name := h_name h; h_link := h_link h; h_size := h_size h; h_mode := h_mode h;
+     h_uid := h_uid h; h_gid := h_gid h; h_uname := h_uname h; h_gname := h_gname h;
+     h_mtime := now; h_atime := h_atime h; h_ctime := h_ctime h; h_pax := h_pax h |}.
+
 Definition handle_close (c : cfg) (s : sys) (hd : handle) (buf : option content) : sys * outc :=
   match buf with
   | None => (s, OOk)
-  | Some b => update_op c s [{| f_hdr := flush_hdr hd (clen b); f_data := b |}] true true
+  | Some b => update_op c s [{| f_hdr := stamp_mtime (flush_hdr hd (clen b)) (clk s); f_data := b |}] true true
   end.
 
 (* ---- calls of the differential alphabet *)
